@@ -955,5 +955,27 @@ func runCombTab(c *core.Ctx) {
 			}
 		}
 	})
+	if !okCtor {
+		// built by appending inside a loop over all filters: ret = append(ret, NewReqFilterMatcher(f))
+		for _, rb := range an.ReturnBlocks(ctor) {
+			rv := an.ReturnValues(an.LastInstr(rb).(*ssa.Return))[0]
+			elems, ok := sliceLiteral(rv, 0)
+			if !ok || len(elems) != 1 || !elems[0].inLoop || elems[0].spread {
+				continue
+			}
+			call := an.CallOf(elems[0].val)
+			if call == nil || !strings.HasSuffix(an.CalleeName(&call.Call), "NewReqFilterMatcher") {
+				continue
+			}
+			arg := call.Call.Args[0]
+			if u, isU := arg.(*ssa.UnOp); isU {
+				if ia, isIA := u.X.(*ssa.IndexAddr); isIA && an.PathOf(ia.X) == "p:"+ctor.Params[0].Name() {
+					if all, _ := forAllLoopAt(arg, call.Block()); all {
+						okCtor = true
+					}
+				}
+			}
+		}
+	}
 	c.Check(okCtor, nil, fname(c, ctor), "one-per-filter", P.Pos(ctor.Pos()), "member i is built from filter i, for every filter", "the list matcher is not built with exactly one member per filter (member i from filter i)")
 }
